@@ -240,6 +240,15 @@ def valuesOf (l : List (List Nat × List Nat)) (k : List Nat) : List (List Nat) 
 /-- a matched raw path segment stored by the routers -/
 def pathParam (seg : List Nat) : List Nat := unescape seg
 
+/-- `params_including_parents` (router/src/nested_router.rs, after repair 36ea226): the parents' maps and the
+route's own map hold values that are already decoded; they are merged with `insert_decoded`, so what
+`use_params_map()` returns under `<Routes>` is each matched segment decoded once.  Argument: the raw matched
+segments, outermost route first. -/
+def nestedParams (segs : List (List Nat)) : List (List Nat) := segs.map pathParam
+
+/-- before the repair the merged map was collected through `ParamsMap::insert`, which decodes again -/
+def nestedParamsOld (segs : List (List Nat)) : List (List Nat) := (segs.map pathParam).map unescape
+
 /-- the pairs of a map in the order `to_query_string` emits them -/
 def mapPairs (m : PMap) : List (List Nat × List Nat) :=
   m.flatMap fun kvs => kvs.2.map fun v => (kvs.1, v)
